@@ -394,6 +394,7 @@ func RegisterNewHelpers(p *Prog, pinned *Pinned) {
 		return
 	}
 	seamSites := registerSeams(p)
+	registerSoleImplInterfaces(p, pinned)
 	// named module types with a value converted to an interface somewhere in module code
 	boxedTypes := map[*types.Named]bool{}
 	for _, fn := range p.Funcs {
@@ -498,6 +499,12 @@ func RegisterNewHelpers(p *Prog, pinned *Pinned) {
 				g = a
 			}
 			if g == nil || g.Parent() != fn || len(g.Params) != 0 || len(g.Blocks) == 0 || false {
+				return
+			}
+			// the Once belongs to this activation (a local, or a field of the object at hand): one
+			// declared in an enclosing function whose literals outlive it (a handler constructor), or
+			// at package level, is shared by every later activation — only the first of them runs the body
+			if !oncePerActivation(call.Call.Args[0], 0) {
 				return
 			}
 			hasDefer := false
@@ -1119,4 +1126,181 @@ func recvNamed(t types.Type) *types.Named {
 	}
 	n, _ := t.(*types.Named)
 	return n
+}
+
+// oncePerActivation: the *sync.Once value is a local of the current activation, a field of an
+// object, or a variable captured from an enclosing function all of whose literals on the way are
+// only called / started within that function (none is returned, stored or handed on).
+func oncePerActivation(v ssa.Value, depth int) bool {
+	if depth > 4 {
+		return false
+	}
+	switch x := v.(type) {
+	case *ssa.Alloc:
+		return true
+	case *ssa.FieldAddr:
+		return true
+	case *ssa.FreeVar:
+		fn := x.Parent()
+		// the literal that captured it must not outlive the function that made it
+		for _, mc := range closureSites(fn) {
+			if closureEscapes(mc, 0) {
+				return false
+			}
+		}
+		b := FreeVarBinding(x)
+		if b == nil {
+			return false
+		}
+		return oncePerActivation(b, depth+1)
+	}
+	return false
+}
+
+// closureSites: the MakeClosure instructions (in the parent) that create fn.
+func closureSites(fn *ssa.Function) []*ssa.MakeClosure {
+	var out []*ssa.MakeClosure
+	if par := fn.Parent(); par != nil {
+		EachInstrRaw(par, func(i ssa.Instruction) {
+			if mc, ok := i.(*ssa.MakeClosure); ok && mc.Fn == ssa.Value(fn) {
+				out = append(out, mc)
+			}
+		})
+	}
+	return out
+}
+
+// closureEscapes: the closure value is used other than by calling / starting / deferring it,
+// keeping it in a local that is only called, or capturing it in literals that do not escape either.
+func closureEscapes(v ssa.Value, depth int) bool {
+	if depth > 4 {
+		return true
+	}
+	refs := v.Referrers()
+	if refs == nil {
+		return true
+	}
+	for _, r := range *refs {
+		switch x := r.(type) {
+		case *ssa.DebugRef:
+		case ssa.CallInstruction:
+			if x.Common().Value != v {
+				return true // passed as an argument
+			}
+		case *ssa.MakeClosure:
+			if closureEscapes(x, depth+1) {
+				return true
+			}
+		case *ssa.Store:
+			al, isAl := x.Addr.(*ssa.Alloc)
+			if !isAl || x.Val != v {
+				return true
+			}
+			// a local function variable: every load of it must itself not escape
+			for _, rr := range *al.Referrers() {
+				switch y := rr.(type) {
+				case *ssa.Store, *ssa.DebugRef:
+				case *ssa.UnOp:
+					if closureEscapes(y, depth+1) {
+						return true
+					}
+				case *ssa.MakeClosure:
+					if closureEscapes(y, depth+1) {
+						return true
+					}
+				default:
+					return true
+				}
+			}
+		default:
+			return true
+		}
+	}
+	return false
+}
+
+// ---- small interfaces introduced for one dependency ----
+//
+// `type requestDoer interface { Do(*http.Request) (*http.Response, error) }` taking the place of
+// a *http.Client parameter: a NEW (not pinned) interface of a module package into which module
+// code only ever puts values of one concrete type. A call through it is read as a call of that
+// type's method — the name the rules know.
+
+var ifaceAlias = map[*types.Func]*types.Func{}
+
+func registerSoleImplInterfaces(p *Prog, pinned *Pinned) {
+	impls := map[*types.Named]map[string]types.Type{}
+	for _, fn := range p.AllFuncs {
+		if !p.IsModFunc(fn) {
+			continue
+		}
+		EachInstrRaw(fn, func(i ssa.Instruction) {
+			var to types.Type
+			var from types.Type
+			switch x := i.(type) {
+			case *ssa.MakeInterface:
+				to, from = x.Type(), x.X.Type()
+			case *ssa.ChangeInterface:
+				to, from = x.Type(), x.X.Type()
+			default:
+				return
+			}
+			n, ok := to.(*types.Named)
+			if !ok || n.Obj().Pkg() == nil {
+				return
+			}
+			if _, mod := p.ModPkgs[n.Obj().Pkg().Path()]; !mod {
+				return
+			}
+			if pp := pinned.Pkgs[Rel(n.Obj().Pkg().Path())]; pp != nil {
+				if _, isPinned := pp.Types[n.Obj().Name()]; isPinned {
+					return
+				}
+			} else {
+				return
+			}
+			if impls[n] == nil {
+				impls[n] = map[string]types.Type{}
+			}
+			impls[n][from.String()] = from
+		})
+	}
+	helperMu.Lock()
+	defer helperMu.Unlock()
+	for n, set := range impls {
+		if len(set) != 1 {
+			continue
+		}
+		var conc types.Type
+		for _, t := range set {
+			conc = t
+		}
+		if _, isIface := conc.Underlying().(*types.Interface); isIface {
+			continue
+		}
+		it, ok := n.Underlying().(*types.Interface)
+		if !ok {
+			continue
+		}
+		ms := types.NewMethodSet(conc)
+		for k := 0; k < it.NumMethods(); k++ {
+			im := it.Method(k)
+			sel := ms.Lookup(im.Pkg(), im.Name())
+			if sel == nil {
+				continue
+			}
+			if cf, isF := sel.Obj().(*types.Func); isF {
+				ifaceAlias[im] = cf
+				p.regIfaceAlias = append(p.regIfaceAlias, im)
+			}
+		}
+		p.Aliases = append(p.Aliases, "new interface "+n.Obj().Name()+" only ever holds "+conc.String()+": calls through it are read as calls of that type's methods")
+	}
+}
+
+// ifaceTarget: the concrete method a call through a sole-implementation interface stands for.
+func ifaceTarget(m *types.Func) *types.Func {
+	helperMu.RLock()
+	defer helperMu.RUnlock()
+	return ifaceAlias[m]
 }
